@@ -7,6 +7,7 @@ import (
 	"bufio"
 	"encoding/hex"
 	"fmt"
+	"math"
 	"os"
 	"strconv"
 	"strings"
@@ -14,6 +15,7 @@ import (
 
 	"github.com/alicebob/sqlittle"
 	sdb "github.com/alicebob/sqlittle/db"
+	"github.com/alicebob/sqlittle/sql"
 	h "verifharness/hcommon"
 )
 
@@ -202,6 +204,30 @@ func pure(w []string) bool {
 				fmt.Fprintf(out, "err %s\n", h.ErrKind(err))
 			} else {
 				fmt.Fprintf(out, "ok %s\n", h.ShowRecord(r))
+			}
+		})
+	case w[0] == "tokens" && len(w) == 2:
+		b, _ := hex.DecodeString(w[1])
+		guard("tokens PANIC ", func() {
+			ts, err := sql.VerifTokenize(string(b))
+			var el []string
+			for _, t := range ts {
+				el = append(el, fmt.Sprintf("%d:%s:%d:%016x", t.Typ, hex.EncodeToString([]byte(t.S)), t.N, math.Float64bits(t.F)))
+			}
+			if err != nil {
+				fmt.Fprintf(out, "tokens err %s\n", strings.Join(el, ";"))
+			} else {
+				fmt.Fprintf(out, "tokens ok %s\n", strings.Join(el, ";"))
+			}
+		})
+	case w[0] == "parse" && len(w) == 2:
+		b, _ := hex.DecodeString(w[1])
+		guard("PANIC ", func() {
+			st, err := sql.Parse(string(b))
+			if err != nil {
+				fmt.Fprintf(out, "reject %s\n", h.DumpAST(st))
+			} else {
+				fmt.Fprintf(out, "accept %s\n", h.DumpAST(st))
 			}
 		})
 	case w[0] == "header" && len(w) == 2:
